@@ -30,7 +30,8 @@ import CnfgenModel.Vars.Manager
 namespace Cnfgen
 namespace Heap
 
-abbrev Addr := Nat
+/-- an address is a natural number: the index of the cell (a local notation, so that `omega` sees `Nat`) -/
+local notation "Addr" => Nat
 
 /-- header dictionary content: insertion-ordered association list, keys distinct -/
 abbrev Hdr := List (String × String)
